@@ -31,6 +31,9 @@ def sources(run):
     out.append(('numpy r16 (4,4,-1)', lambda p: writers.numpy_to_sgz(p, cube, 16, (4, 4, -1), ilines=np.arange(6) + 10,
                                                                    xlines=np.arange(5) * 2 + 20, samples=np.arange(70) * 4.0)))
     out.append(('segy heuristic r32', lambda p: writers.segy_to_sgz(sgy, p, 32, (4, 4, -1))))
+    # the other two loader families: z-slice layout (4 samples per block) and the general layout
+    out.append(('numpy r32 (16,16,4)', lambda p: writers.numpy_to_sgz(p, cube, 32, (16, 16, 4))))
+    out.append(('segy heuristic r16 (8,8,32)', lambda p: writers.segy_to_sgz(sgy, p, 16, (8, 8, 32))))
     out.append(('segy thorough r32', lambda p: writers.segy_to_sgz(sgy, p, 32, (4, 4, -1), header_detection='thorough')))
     if run.tier == 'thorough':
         out.append(('segy exhaustive r16 (8,8,32)', lambda p: writers.segy_to_sgz(sgy, p, 16, (8, 8, 32), header_detection='exhaustive')))
